@@ -76,9 +76,9 @@ def dfs_plans(tier, sticky):
     if tier == "thorough":
         p["shared_3_main"] = "O0:S:v7:d C0:F:m:co0 C1:F:m:co0 C2:F:m:ai0"
         p["await2"] = "O0:U:v1:d O1:S:v2:d C0:F:m:ai0+1"
-        p["awaiton2"] = "X1:q O0:S:v1:d O1:S:v2:d C0:F:m:an1_0+1"
+        p["awaiton2"] = "X1:q O0:U:v1:d O1:S:v2:d C0:F:m:an1_0+1"
         if sticky:
-            p["sticky2"] = "X1:q O0:U:v1:d O1:S:v2:d C0:F:t:on1.as0+1"
+            p["sticky2"] = "X1:q O0:U:v1:d O1:U:v2:d C0:F:t:on1.as0+1"
     return p
 
 
@@ -333,6 +333,7 @@ def main(ck):
     t0 = time.time()
     rule = c13_translate.generate(vlib.REPO, GEN)
     ck.cov["readiness_rule"] = dict(recognised=rule["recognised"], is_result=rule["is_result"], empty=rule["empty_body"])
+    ck.cov["impl_swaps_executor"] = dict(value=rule["impl_moves"], impl=rule["impl_body"])
     ck.prove("props/Properties_C13.v", ["model/AwaitObs.vo"])
     sticky = sticky_compiles(ck)
     stats = dict(executions=0, scenarios=0, cut=0, dfs_scenarios=0, dfs_exhaustive=0, distinct=0, validated=0,
@@ -352,6 +353,9 @@ def main(ck):
     mixes["shared_2_threads"] = "O0:S:v7:d C0:F:t:co0 C1:F:m:co0"
     mixes["shared_chain3"] = "O0:S:v7:d C0:S:m:co0 C1:F:m:co1 C2:F:t:co1"
     mixes["await2_dyn"] = "O0:U:v1:d O1:U:e2:d C0:F:m:di0+1"
+    mixes["awaiton2_shared"] = "X1:q O0:S:v1:d O1:S:v2:d C0:F:m:an1_0+1"
+    if sticky:
+        mixes["sticky2_mixed"] = "X1:q O0:U:v1:d O1:S:v2:d C0:F:t:on1.as0+1"
     all_traces += collect(ck, R, mixes, "random", ["--max", "400" if thorough else "120", "--seed", str(ck.seed)], stats)
     if thorough:
         # without symmetric transfer: the same small exhaustive set and a third of the mixes, with correspondence
@@ -392,6 +396,9 @@ def main(ck):
         ck.notes.append("S5 observed (not a C13 violation by the property text; see DESIGN 6): %d validated traces in which two "
                         "coroutines co_awaiting one shared future inline end with different CurrentExecutor, e.g. scenario %s "
                         "choices %s: %s" % (len(stats["s5"]), t["scenario"], t["choices"], json.dumps(s5)))
+    else:
+        ck.notes.append("S5 not observed: in no validated trace do two coroutines that co_await one shared future inline end "
+                        "with different CurrentExecutor (PromiseType::Impl in this tree: %s)" % rule["impl_body"])
     for cfg, t, plan, why in stats["bad"][:10]:
         ck.broken.append(dict(name="correspondence Await.run vs implementation (%s) on %s" % (cfg, t["scenario"]),
                               detail="%s\nplan: %s\ntrace: %s\nchoices: %s" % (why, plan.text, t["trace"], t["choices"])))
